@@ -75,7 +75,8 @@ def run(prog, tier, res):
             res.violate(R3, FN, "field:%s" % n, "field `%s` is decoded as %s; the documented layout says %s" % (n, s, w), body.where(oks[0][0]))
 
     # ---------------------------------------------------------------- mask loops
-    mask_loops = [h for h in loops if h not in chan_loops]
+    pure = set(h for (h, _) in sy.pure_map_loops().values())      # a map/collect written as a push loop is an expression
+    mask_loops = [h for h in loops if h not in chan_loops and h not in pure]
     good = 0
     for h in mask_loops:
         info = mask_loop_shape(prog, an, sy, h)
